@@ -583,6 +583,41 @@ def rule_gate_table(ctx: Ctx) -> None:
             continue
         gate_calls = [x for st in b.body for x in calls_in(st)
                       if call_attr(x) in stab_methods or call_attr(x) == "apply_conditioned_gate"]
+        via_table = None
+        if not gate_calls:
+            # method chosen from a class-keyed table of method names: getattr(state, TABLE[type(op)])(...)
+            for x in [y for st in b.body for y in ast.walk(st) if isinstance(y, ast.Call) and isinstance(y.func, ast.Name) and y.func.id == "getattr" and len(y.args) == 2]:
+                sel = x.args[1]
+                if isinstance(sel, ast.Subscript) and "type(" in norm(sel.slice) and isinstance(sel.value, (ast.Name, ast.Attribute)):
+                    tname_ = sel.value.id if isinstance(sel.value, ast.Name) else sel.value.attr
+                    tbl = stm.find(tname_) if isinstance(sel.value, ast.Name) else None
+                    dct = None
+                    if isinstance(tbl, ast.Assign) and isinstance(tbl.value, ast.Dict):
+                        dct = tbl.value
+                    else:
+                        for st_ in list(stm.tree.body) + list(repo.cls("StabilizerCompiler", STAB).node.body):
+                            if isinstance(st_, ast.Assign) and any(isinstance(t, ast.Name) and t.id == tname_ for t in st_.targets) and isinstance(st_.value, ast.Dict):
+                                dct = st_.value
+                    if dct is None:
+                        raise AnalysisError(f"{STAB}: table `{tname_}` of gate methods not found")
+                    for k_, v_ in zip(dct.keys, dct.values):
+                        if k_ is not None and (dotted(k_) or "").split(".")[-1] == c.name and isinstance(v_, ast.Constant) and isinstance(v_.value, str):
+                            via_table = (v_.value, v_)
+        if via_table is not None:
+            a, node_ = via_table
+            if a not in stab_methods:
+                ctx.fail("sibling.gate-table", stm, node_, f"stabilizer table entry for {c.name} names `{a}`, which is not a gate method of the stabilizer state",
+                         construct=f"stabilizer: {c.name} -> {a}", func="StabilizerCompiler.compile_one_gate")
+                continue
+            k, u = stab_methods[a]
+            exp = want if kind in ("1", "cc") else cl.controlled(want)
+            if len(u) == len(exp) and cl.key(u) == cl.key(exp):
+                ctx.ok("sibling.gate-table", stm, node_, what=f"stabilizer {c.name} -> {a} (method table)")
+            else:
+                ctx.fail("sibling.gate-table", stm, node_,
+                         f"stabilizer branch for {c.name} applies `{a}` (method table entry) whose Clifford element is not the one {c.name} denotes",
+                         construct=f"stabilizer: {c.name} -> {a}", func="StabilizerCompiler.compile_one_gate")
+            continue
         if not gate_calls:
             ctx.fail("sibling.gate-table", stm, b.node, f"stabilizer branch for {c.name} applies no gate",
                      construct=f"stabilizer: {c.name} applies nothing", func="StabilizerCompiler.compile_one_gate")
@@ -700,7 +735,21 @@ def _swap_first(a: str, b: str):
     return f
 
 
+def _edit_method_table(src: str) -> str:
+    """the one-qubit branches of StabilizerCompiler.compile_one_gate become a look-up in a table of method names; PhaseDagger's entry names apply_phase"""
+    a = src.index("        elif type(op) is ops.Hadamard:\n            state.apply_hadamard(")
+    b = src.index("        elif type(op) is ops.CNOT:\n", a)
+    out = src[:a] + ("        elif type(op) in ONE_QUBIT_GATE_METHODS:\n"
+                     "            apply_gate = getattr(state, ONE_QUBIT_GATE_METHODS[type(op)])\n"
+                     "            apply_gate(q_index(op.register, op.reg_type))\n\n") + src[b:]
+    c = out.index("class StabilizerCompiler(")
+    table = ("ONE_QUBIT_GATE_METHODS = {\n    ops.Hadamard: \"apply_hadamard\",\n    ops.Phase: \"apply_phase\",\n    ops.PhaseDagger: \"apply_phase\",\n"
+             "    ops.SigmaX: \"apply_sigmax\",\n    ops.SigmaY: \"apply_sigmay\",\n    ops.SigmaZ: \"apply_sigmaz\",\n}\n\n\n")
+    return out[:c] + table + out[c:]
+
+
 KNOCKOUTS = [
+    Knockout("method-table-phase-dagger-entry", STAB, _edit_method_table, "sibling.gate-table", "PhaseDagger"),
     Knockout("dm-forced-one-test-inverted", "graphiq/backends/density_matrix/state.py", sub_once("                if not np.isclose(probs[1], 0.0):", "                if np.isclose(probs[1], 0.0):"), "sibling.determinism-map", "possible"),
     Knockout("dm-forced-zero-tests-other-probability", "graphiq/backends/density_matrix/state.py", sub_once("                if not np.isclose(probs[0], 0.0):", "                if not np.isclose(probs[1], 0.0):"), "sibling.determinism-map", "tests probability"),
     Knockout("dm-basis-bit-lsb-first", "graphiq/backends/density_matrix/functions.py", sub_once("def projectors_zbasis(n_qubits, measure_register):", "def _both_one(n_qubits, control_qubit, target_qubit):\n    basis_states = np.arange(2**n_qubits)\n    return (basis_states >> control_qubit) & (basis_states >> target_qubit) & 1\n\n\ndef projectors_zbasis(n_qubits, measure_register):"), "index.bit-order", "_both_one"),
